@@ -10,6 +10,12 @@ Sub-checks
   stats    large trials; exact chi-square tests of the within-block, replicate-within-environment and environment mean
            squares of (record - oracle genotypic value) against the requested variances (explicit alpha budget).
 
+Widened input classes (after adversarial seeds, see sensitivity/C14.md): variance arguments as plain / read-only / strided-view /
+float32 arrays, the *same* array object passed for several variance arguments, a second protocol configured from the very same
+argument objects whose heritability is set (the first protocol's requested variances are unchanged), variances assigned through
+the public setters, a trial run before the heritability is set; phenotype-table label columns stored as object / str /
+"string" / categorical (sorted, ordered, with unused categories) and family columns as int8 / int32 / Int64 / categorical.
+
 Oracle: genotypic values from the allele calls and model coefficients with math.fsum; variances with fractions.Fraction;
 means with math.fsum; everything joined by taxon label and (env, rep), never by row position (unless there are no labels).
 """
@@ -174,6 +180,71 @@ def var_spec(draw, t):
     return [draw(st.sampled_from(VARVALS)) for _ in range(t)]
 
 
+ARR_KINDS = ["plain", "plain", "plain", "readonly", "strided", "float32"]
+SHARES = [None, None, None, ["var_env", "var_err"], ["var_rep", "var_err"], ["var_env", "var_rep", "var_err"], ["var_env", "var_rep"]]
+TAXA_DTYPES = ["default", "default", "object", "string", "category", "category_universe", "category_ordered"]
+GRP_DTYPES = ["default", "default", "int32", "int8", "Int64", "category", "category_universe"]
+
+
+def make_array(vals, kind):
+    """legal ways of handing a (t,) vector of variances to the protocol"""
+    vals = [float(x) for x in vals]
+    if kind == "float32":                       # VARVALS / SVAR are exactly representable
+        return numpy.array(vals, dtype="float32")
+    if kind == "strided":                       # non-contiguous float64 view of a larger buffer
+        buf = numpy.full(2 * len(vals) + 1, 7.0, dtype=float)
+        view = buf[1::2]
+        view[:] = vals
+        return view
+    arr = numpy.array(vals, dtype=float)
+    if kind == "readonly":
+        arr.setflags(write=False)
+    return arr
+
+
+def build_var_args(case, t):
+    """{name: constructor argument}; the members of case['share'] receive the *same* ndarray object"""
+    kind = case.get("arr_kind", "plain")
+    share = case.get("share") or []
+    out, shared = {}, None
+    for nm in ("var_env", "var_rep", "var_err"):
+        spec = case[nm]
+        if spec is None or isinstance(spec, (int, float)):
+            out[nm] = var_arg(spec, t)
+        elif nm in share:
+            if shared is None:
+                shared = make_array(spec[:t], kind)
+            out[nm] = shared
+        else:
+            out[nm] = make_array(spec[:t], kind)
+    return out
+
+
+def relabel(df, taxa_dtype, grp_dtype, taxa_universe, grp_universe):
+    """The same table (same labels, same values, same row order) with its label columns stored differently."""
+    if taxa_dtype == "default" and grp_dtype == "default":
+        return df
+    out = df.copy()
+    if taxa_dtype == "object":
+        out["taxa"] = out["taxa"].astype(object)
+    elif taxa_dtype == "string":
+        out["taxa"] = out["taxa"].astype("string")
+    elif taxa_dtype == "category":
+        out["taxa"] = out["taxa"].astype("category")
+    elif taxa_dtype in ("category_universe", "category_ordered"):   # categories in universe order, unused ones included
+        out["taxa"] = pandas.Categorical([str(x) for x in df["taxa"].tolist()], categories=list(taxa_universe),
+                                         ordered=(taxa_dtype == "category_ordered"))
+    if "taxa_grp" in out.columns and grp_dtype != "default":
+        if grp_dtype == "category":
+            out["taxa_grp"] = out["taxa_grp"].astype("category")
+        elif grp_universe is not None:
+            if grp_dtype == "category_universe":
+                out["taxa_grp"] = pandas.Categorical([int(x) for x in df["taxa_grp"].tolist()], categories=list(grp_universe))
+            else:
+                out["taxa_grp"] = out["taxa_grp"].astype(grp_dtype)
+    return out
+
+
 @st.composite
 def trial_case(draw):
     pop = draw(population())
@@ -189,8 +260,27 @@ def trial_case(draw):
         herit = [which, val]
     rng = [draw(st.sampled_from(["G", "RS"])), draw(st.integers(0, 2 ** 31 - 1))]
     perm = draw(st.permutations(list(range(len(pop["geno"][0])))))
-    return {"pop": pop, "nenv": nenv, "nrep": nrep, "var_env": ve, "var_rep": vr, "var_err": vx, "herit": herit, "rng": rng,
+    case = {"pop": pop, "nenv": nenv, "nrep": nrep, "var_env": ve, "var_rep": vr, "var_err": vx, "herit": herit, "rng": rng,
             "gt_perm": list(perm)}
+    # ---- how the (same) settings are handed over -------------------------------------------------------------------
+    share = draw(st.sampled_from(SHARES))
+    if share is not None:                       # one array object for several variance arguments => one value
+        common = [draw(st.sampled_from(VARVALS)) for _ in range(t)]
+        for nm in share:
+            case[nm] = list(common)
+    case["share"] = share
+    case["arr_kind"] = draw(st.sampled_from(ARR_KINDS))
+    case["via_setter"] = draw(st.integers(0, 4)) == 0       # variances assigned through the public setters after construction
+    case["pre_use"] = draw(st.integers(0, 3)) == 0          # a trial is run before the heritability is set
+    twin = None
+    if draw(st.integers(0, 2)) == 0:            # a second protocol configured from the very same argument objects
+        twin = {"which": draw(st.sampled_from(["h2", "H2"])), "h": draw(st.sampled_from([0.5, 0.25, 0.9, 1.0])),
+                "when": draw(st.sampled_from(["before", "after"])), "use": draw(st.booleans()),
+                "seed": draw(st.integers(0, 2 ** 31 - 1))}
+    case["twin"] = twin
+    case["taxa_dtype"] = draw(st.sampled_from(TAXA_DTYPES))
+    case["grp_dtype"] = draw(st.sampled_from(GRP_DTYPES))
+    return case
 
 
 # ----------------------------------------------------------------------------------------------------------------
@@ -235,12 +325,52 @@ def check_trial(case, ctx):
     nrep = case["nrep"] if isinstance(case["nrep"], list) else [case["nrep"]] * nenv
     nrep_arg = numpy.array(case["nrep"], dtype=int) if isinstance(case["nrep"], list) else int(case["nrep"])
 
-    pt = G_E_Phenotyping(gm, nenv, nrep_arg, var_env=var_arg(case["var_env"], t), var_rep=var_arg(case["var_rep"], t),
-                         var_err=var_arg(case["var_err"], t), rng=make_rng(case["rng"]))
+    vargs = build_var_args(case, t)
+    if case.get("via_setter"):
+        pt = G_E_Phenotyping(gm, nenv, nrep_arg, var_env=None, var_rep=1.0, var_err=numpy.full(t, 2.0), rng=make_rng(case["rng"]))
+        pt.var_err = vargs["var_err"]
+        pt.var_env = vargs["var_env"]
+        pt.var_rep = vargs["var_rep"]
+    else:
+        pt = G_E_Phenotyping(gm, nenv, nrep_arg, rng=make_rng(case["rng"]), **vargs)
     v_env, v_rep, v_err = var_vec(case["var_env"], t), var_vec(case["var_rep"], t), var_vec(case["var_err"], t)
-    ctx.check([float(x) for x in pt.var_env] == v_env and [float(x) for x in pt.var_rep] == v_rep
-              and [float(x) for x in pt.var_err] == v_err and [int(x) for x in pt.nrep] == nrep, "config.stored",
-              lambda: "stored %s %s %s %s" % (pt.var_env, pt.var_rep, pt.var_err, pt.nrep))
+
+    def stored_ok(want_err):
+        return ([float(x) for x in pt.var_env] == v_env and [float(x) for x in pt.var_rep] == v_rep
+                and (want_err is None or [float(x) for x in pt.var_err] == want_err) and [int(x) for x in pt.nrep] == nrep)
+
+    ctx.check(stored_ok(v_err), "config.stored", lambda: "stored %s %s %s %s" % (pt.var_env, pt.var_rep, pt.var_err, pt.nrep))
+    share = case.get("share")
+    arrays = [nm for nm in ("var_env", "var_rep", "var_err") if isinstance(vargs[nm], numpy.ndarray)]
+    ctx.label("same_array_for_several_variances", bool(share) and case.get("arr_kind") != "float32")
+    ctx.label("same_array_for_error_and_other_variance_then_herit",
+              bool(share) and "var_err" in share and case.get("arr_kind") != "float32" and case["herit"] is not None)
+    ctx.label("variance_arrays_" + case.get("arr_kind", "plain"), bool(arrays))
+    ctx.label("variances_via_setters", bool(case.get("via_setter")))
+
+    # a second protocol configured from the very same argument objects (two trials from one settings block): setting *its*
+    # heritability fixes *its* error variance; the variances requested of the first protocol are what they were
+    twin = case.get("twin")
+    pt2 = None
+    if twin is not None:
+        pt2 = G_E_Phenotyping(gm, nenv, nrep_arg, rng=numpy.random.default_rng(twin["seed"]), **vargs)
+
+    def run_twin():
+        (pt2.set_h2 if twin["which"] == "h2" else pt2.set_H2)(float(twin["h"]), pg)
+        if twin["use"]:
+            pt2.phenotype(pg)
+        ctx.label("twin_protocol_heritability_set")
+        ctx.label("twin_protocol_shares_error_variance_array", "var_err" in arrays and case.get("arr_kind") != "float32")
+
+    if case.get("pre_use"):
+        pt.phenotype(pg)
+        ctx.check(stored_ok(v_err), "config.changed_by_trial", lambda: "stored %s %s %s" % (pt.var_env, pt.var_rep, pt.var_err))
+        ctx.label("trial_run_before_heritability_set", case["herit"] is not None)
+    if twin is not None and twin["when"] == "before":
+        run_twin()
+        ctx.check(stored_ok(v_err), "config.changed_by_other_protocol",
+                  lambda: "after set_%s on a second protocol: stored %s %s %s, requested %s %s %s"
+                  % (twin["which"], pt.var_env, pt.var_rep, pt.var_err, v_env, v_rep, v_err))
 
     # ---- heritability -> error variance ----------------------------------------------------------------------
     if case["herit"] is not None:
@@ -272,6 +402,13 @@ def check_trial(case, ctx):
         v_err = [float((1 - Fraction(hvec[k])) / Fraction(hvec[k]) * exact_var([src[i][k] for i in range(n)])) for k in range(t)]
         ctx.label("herit_" + which)
         ctx.label("herit_AD_model", pop["kind"] == "AD")
+
+    if twin is not None and twin["when"] == "after":
+        before = [float(x) for x in pt.var_err]
+        run_twin()
+        ctx.check(stored_ok(None) and [float(x) for x in pt.var_err] == before, "config.changed_by_other_protocol",
+                  lambda: "after set_%s on a second protocol: stored %s %s %s, were %s %s %s"
+                  % (twin["which"], pt.var_env, pt.var_rep, pt.var_err, v_env, v_rep, before))
 
     # ---- the trial -----------------------------------------------------------------------------------------------
     df = pt.phenotype(pg)
@@ -387,7 +524,13 @@ def check_trial(case, ctx):
         perm = [i % n for i in case["gt_perm"]][:n]
         gt = pg.select_taxa(perm)
         bvp = MeanPhenotypicBreedingValue("taxa", "taxa_grp" if grp is not None else None, tcols)
-        est = bvp.estimate(df, gt)
+        # the same table with its label columns stored as the case says (object / string / categorical ...)
+        tdt, gdt = case.get("taxa_dtype", "default"), case.get("grp_dtype", "default")
+        dfl = relabel(df, tdt, gdt, names, None if grp is None else [3, 0, 2, 1, 5])
+        ctx.label("trial_table_categorical_labels", tdt.startswith("category") or gdt.startswith("category"))
+        ctx.label("trial_table_categorical_labels_multi_family",
+                  (tdt.startswith("category") or gdt.startswith("category")) and grp is not None and len(set(grp)) >= 2)
+        est = bvp.estimate(dfl, gt)
         u = est.unscale()
         ctx.check(type(est) is DenseEstimatedBreedingValueMatrix, "meanbv.type", str(type(est)))
         ctx.check(list(est.taxa) == [names[i] for i in perm], "meanbv.taxa_order",
@@ -413,7 +556,7 @@ def check_trial(case, ctx):
         if grp is None:
             ctx.label("ungrouped_population_with_group_column")
             if not ctx.known("F-C14-a", True):
-                est2 = MeanPhenotypicBreedingValue("taxa", "taxa_grp", tcols).estimate(df, gt)
+                est2 = MeanPhenotypicBreedingValue("taxa", "taxa_grp", tcols).estimate(dfl, gt)
                 u2 = est2.unscale()
                 ctx.check(u2.shape == u.shape and not bool(numpy.isnan(u2).any()), "meanbv.ungrouped_table_with_group_column",
                           lambda: "population without groups, taxa_grp_col='taxa_grp': breeding values %s although every taxon "
@@ -482,14 +625,20 @@ def meanbv_case(draw):
     gt = list(draw(st.permutations(list(range(nuni)))))[: draw(st.integers(1, nuni))]
     mode = draw(st.sampled_from(["gt", "gt", "gt", "none"]))
     gtkind = draw(st.sampled_from(["phased", "unphased"]))
+    # storage of the label columns (same labels, same values) and the category order of the family labels
+    taxa_dtype = draw(st.sampled_from(TAXA_DTYPES))
+    grp_dtype = draw(st.sampled_from(GRP_DTYPES))
+    grp_cats = list(draw(st.permutations([0, 1, 2, 3, 5])))
     return {"names": names, "grp": grp, "use_grp": use_grp, "tcols": tcols, "rows": rows, "rowperm": rowperm,
-            "rowperm2": rowperm2, "gt": gt, "mode": mode, "gtkind": gtkind}
+            "rowperm2": rowperm2, "gt": gt, "mode": mode, "gtkind": gtkind, "taxa_dtype": taxa_dtype, "grp_dtype": grp_dtype,
+            "grp_cats": grp_cats}
 
 
 def check_meanbv(case, ctx):
     names, grp, tcols, rows = case["names"], case["grp"], case["tcols"], case["rows"]
     t = len(tcols)
     use_grp = case["use_grp"]
+    tdt, gdt = case.get("taxa_dtype", "default"), case.get("grp_dtype", "default")
 
     def frame(order):
         data = {"taxa": [names[rows[r][0]] for r in order]}
@@ -498,7 +647,8 @@ def check_meanbv(case, ctx):
         data["env"] = [1 + (r % 3) for r in order]
         for k, c in enumerate(tcols):
             data[c] = [rows[r][1 + k] for r in order]
-        return pandas.DataFrame(data)
+        # universe order of the taxa = `names` (includes taxa without any record: unused categories)
+        return relabel(pandas.DataFrame(data), tdt, gdt, names, case.get("grp_cats", [0, 1, 2, 3, 5]))
 
     def gtobj():
         sel = case["gt"]
@@ -529,6 +679,14 @@ def check_meanbv(case, ctx):
     ctx.label("genotype_order_non_lexicographic", gtnames != sorted(gtnames))
     ctx.label("grouped", use_grp)
     ctx.label("all_unphenotyped", case["mode"] == "gt" and len(missing) == len(sel))
+    nfam = len(set(grp[i] for i in recs))
+    cat = tdt.startswith("category") or (use_grp and gdt.startswith("category"))
+    ctx.label("taxa_column_" + tdt)
+    ctx.label("family_column_" + gdt, use_grp)
+    ctx.label("categorical_labels", cat)
+    ctx.label("categorical_labels_grouped_multi_family", cat and use_grp and nfam >= 2)
+    ctx.label("categorical_with_unused_categories",
+              (tdt in ("category_universe", "category_ordered") and len(recs) < len(names)) or (use_grp and gdt == "category_universe"))
     ctx.nontrivial(len(sel) >= 3 and gtnames != sorted(gtnames) and maxrec >= 2 and bool(missing) and case["mode"] == "gt")
 
     if case["mode"] == "gt":
@@ -614,8 +772,17 @@ def stats_case(draw):
         vx = [draw(st.sampled_from([0.0, 0.25])) for _ in range(t)]
     herit = draw(st.sampled_from([None, None, ["h2", 0.5], ["H2", 0.25], ["h2", 0.8]])) if shape != "env_focus" else None
     rng = [draw(st.sampled_from(["G", "RS"])), draw(st.integers(0, 2 ** 31 - 1))]
-    return {"shape": shape, "n": n, "nenv": nenv, "nrep": nrep, "p": p, "t": t, "seed": seed, "kind": kind,
+    case = {"shape": shape, "n": n, "nenv": nenv, "nrep": nrep, "p": p, "t": t, "seed": seed, "kind": kind,
             "var_env": ve, "var_rep": vr, "var_err": vx, "herit": herit, "rng": rng}
+    # one array object handed over for several variance arguments (hence one value); the error variance may then be replaced
+    # through a heritability: the environment / replicate variances requested stay what they were
+    share = draw(st.sampled_from(SHARES)) if shape != "env_focus" else None
+    if share is not None:
+        for nm in share:
+            case[nm] = list(case[share[0]])
+    case["share"] = share
+    case["arr_kind"] = draw(st.sampled_from(ARR_KINDS))
+    return case
 
 
 def chi2_bounds(df):
@@ -637,8 +804,10 @@ def check_stats(case, ctx):
     nrep_pat = case["nrep"]
     nrep = [nrep_pat] * nenv if isinstance(nrep_pat, int) else [nrep_pat[e % len(nrep_pat)] for e in range(nenv)]
     pt = G_E_Phenotyping(gm, nenv, numpy.array(nrep, dtype=int) if not isinstance(nrep_pat, int) else int(nrep_pat),
-                         var_env=numpy.array(case["var_env"], dtype=float), var_rep=numpy.array(case["var_rep"], dtype=float),
-                         var_err=numpy.array(case["var_err"], dtype=float), rng=make_rng(case["rng"]))
+                         rng=make_rng(case["rng"]), **build_var_args(case, t))
+    ctx.label("same_array_for_several_variances", bool(case.get("share")) and case.get("arr_kind") != "float32")
+    ctx.label("same_array_for_error_and_other_variance_then_herit", bool(case.get("share")) and "var_err" in case["share"]
+              and case.get("arr_kind") != "float32" and case["herit"] is not None)
     v_env, v_rep, v_err = list(case["var_env"]), list(case["var_rep"]), list(case["var_err"])
     if case["herit"] is not None:
         which, h = case["herit"]
@@ -726,14 +895,19 @@ SUBCHECKS = [
                   "from {0,.25,1,4}, optional set_h2/set_H2, Generator or RandomState); non-trivial = >= 3 taxa in "
                   "non-lexicographic order and >= 2 records per taxon",
              required_labels=("all_noise_zero", "some_trait_noise_free_some_noisy", "herit_h2", "herit_H2", "unequal_nrep",
-                              "taxa_non_lexicographic", "error_free_trait_with_block_effects", "rng_G", "rng_RS")),
+                              "taxa_non_lexicographic", "error_free_trait_with_block_effects", "rng_G", "rng_RS",
+                              "same_array_for_error_and_other_variance_then_herit", "twin_protocol_shares_error_variance_array",
+                              "variance_arrays_readonly", "variance_arrays_strided", "variances_via_setters",
+                              "trial_run_before_heritability_set", "trial_table_categorical_labels_multi_family")),
     SubCheck("meanbv", check_meanbv, meanbv_case(), quick=700, thorough=3000, shards_quick=4,
              rule="hand-built phenotype tables (1-9 taxa, 0-5 records each, rows permuted twice, optional groups, 1-3 traits) "
                   "and a genotype matrix listing any non-empty sub-list of the taxa in arbitrary order (or no matrix); "
                   "non-trivial = >= 3 genotyped taxa in non-lexicographic order, some taxon with >= 2 records, >= 1 "
                   "genotyped taxon without records",
              required_labels=("unphenotyped_taxon_in_genotypes", "table_has_taxa_not_in_genotypes",
-                              "genotype_order_non_lexicographic", "mode_none")),
+                              "genotype_order_non_lexicographic", "mode_none", "categorical_labels_grouped_multi_family",
+                              "categorical_with_unused_categories", "taxa_column_string", "taxa_column_object",
+                              "family_column_Int64")),
     SubCheck("stats", check_stats, stats_case(), quick=24, thorough=60, shards_quick=4,
              rule="large trials (4000-6000 env x 2 taxa, 800-1600 env x 2-4 taxa, or 20-50 env x 60-110 taxa; nrep patterns incl. unequal); every case "
                   "is non-trivial; chi-square tests at two-sided level %g each" % ALPHA_TEST),
